@@ -35,8 +35,14 @@ def rand_xf(rng, general=0.25):
         k = rng.randrange(4)
         co, si = [(1, 0), (0, 1), (-1, 0), (0, -1)][k]
         return (float(co), float(si), float(-si), float(co), float(rng.randrange(0, 10)), float(rng.randrange(0, 10)))
-    if c < 0.75:
+    if c < 0.70:
         return (1.0, rng.choice([0.5, -0.25, 0.0]), rng.choice([0.5, 0.25, -0.5]), 1.0, 0.0, 0.0)
+    if c < 0.75:
+        # the round decimal numbers people type (zoom 1.1, 2.5, 0.3 ...; offsets in tenths): not representable in binary,
+        # and their products with grid coordinates land within an ulp of the quarter-pixel boundaries
+        sx = rng.choice([1.1, 0.3, 2.5, 1.25, 0.7, 1.5, 0.1, 3.3, 0.9, 1.2])
+        sy = sx if rng.random() < 0.6 else rng.choice([1.1, 0.3, 2.5, 0.7, 1.0, -1.1])
+        return (sx, 0.0, 0.0, sy, rng.randrange(-30, 60) / 10.0, rng.randrange(-30, 60) / 10.0)
     if c < 0.78:
         # a shear along one axis only, by a whole or half number, with an integer translation: integer points often map
         # to integer points although the transform is no translation / scale
